@@ -582,7 +582,8 @@ func c14GenOp(rg *vkit.Rand, m *c14Model, pool []gixSeries) c14Op {
 
 // c14RunHistory runs history `no` with the given cache size; the op list is a function of (seed,
 // no) only, so the cache-on and cache-off runs see the same history.
-func c14RunHistory(t *testing.T, r *vkit.Run, rep *gixReporter, no, cache int, crash bool) {
+func c14RunHistory(t *testing.T, r *vkit.Run, rep *gixReporter, no, cache int, crashKind string) {
+	crash := crashKind != ""
 	rg := r.Rand(no)
 	dir, err := gixTempDir("c14")
 	if err != nil {
@@ -615,6 +616,12 @@ func c14RunHistory(t *testing.T, r *vkit.Run, rep *gixReporter, no, cache int, c
 	crashed := false
 	for i := 0; i < nOps; i++ {
 		op := c14GenOp(rg, h.m, poolList)
+		if crash && !crashed && i >= crashAt {
+			// the op to be torn is of the kind this crash history was assigned
+			for tries := 0; tries < 80 && op.Kind != crashKind; tries++ {
+				op = c14GenOp(rg, h.m, poolList)
+			}
+		}
 		step := fmt.Sprintf("%s #%d", op.Kind, i)
 		if crash && !crashed && i >= crashAt && (op.Kind == "create" || op.Kind == "drop_series" || op.Kind == "drop_measurement" || op.Kind == "compact") {
 			crashed = h.crashOp(op, pool, step)
@@ -892,13 +899,26 @@ func (h *c14Hist) crashOp(op c14Op, pool map[string]gixSeries, step string) bool
 				others = append(others, "pre")
 			}
 			for _, o := range others {
-				for c := a; c <= b; c++ { // EVERY byte of the appended log region
+				for c := a; c <= b; c++ { // EVERY byte of the appended log region (thorough)
 					for _, v := range []string{"cut", "zero", "a5"} {
 						if c == b && v != "cut" {
 							continue
 						}
-						if h.r.Quick() && (o == "pre" && (v != "cut" || (c-a)%3 != 0)) {
-							continue
+						if h.r.Quick() {
+							// quick tier: the clean cut (what a torn append to a growing file
+							// leaves) at every byte of the first 80 and last 30 bytes of the region
+							// and every 5th byte in between; fills and the "other logs not yet
+							// written" family at a stride
+							d := c - a
+							if b-a > 120 && d > 80 && b-c > 30 && d%5 != 0 {
+								continue
+							}
+							if v != "cut" && d%8 != 1 {
+								continue
+							}
+							if o == "pre" && (v != "cut" || d%6 != 0) {
+								continue
+							}
 						}
 						images = append(images, c14Image{ID: fmt.Sprintf("%s/%s@%d/%s/others=%s", opName, rel, c, v, o), Family: "torn_log", File: rel, A: a, B: b, Cut: c, Variant: v, Others: o})
 					}
@@ -1101,10 +1121,14 @@ func (j *c14Job) judge(ir c14ImgResult) {
 		for _, s := range j.after {
 			lo2[s.String()], hi2[s.String()] = s, s
 		}
-		// whatever part of the in-flight op was recovered must still be there after the restart
-		for s := range rec {
-			if v, ok := hi[s]; ok {
-				lo2[s] = v
+		// whatever part of an in-flight create was recovered must still be there after the
+		// restart (for drops the series iterators are supersets while the series file still
+		// holds the series, so the recovered set says nothing about what must stay)
+		if j.op.Kind == "create" {
+			for s := range rec {
+				if v, ok := hi[s]; ok {
+					lo2[s] = v
+				}
 			}
 		}
 		d2 := c14Compare(ir.Second, c14Derive(lo2), j.withBaseline(c14Derive(hi2)), h.m)
@@ -1171,15 +1195,19 @@ func TestC14(t *testing.T) {
 		"crash rule: the recovered series set lies between the state before and after the op in flight and every other answer lies between the answers derived from those two states; compaction changes nothing")
 	rep := newGixReporter(r, 1)
 	n := gixN(r, 30, 400)
-	crashN := r.N(4, 40)
+	crashN := r.N(3, 40)
 	every := n / crashN
 	if every < 1 {
 		every = 1
 	}
+	kinds := []string{"create", "drop_series", "drop_measurement", "compact"}
 	for i := 0; i < n; i++ {
-		crash := i%every == 0
-		c14RunHistory(t, r, rep, i, 100, crash)
-		c14RunHistory(t, r, rep, i, 0, false)
+		ck := ""
+		if i%every == 0 {
+			ck = kinds[(i/every)%len(kinds)]
+		}
+		c14RunHistory(t, r, rep, i, 100, ck)
+		c14RunHistory(t, r, rep, i, 0, "")
 	}
 	c14Drain(r)
 }
